@@ -54,7 +54,7 @@ Definition metric_on (dom : Z -> Prop) (d : dist) : Prop :=
 Fixpoint insert_by {A} (key : A -> Z) (x : A) (l : list A) : list A :=
   match l with
   | [] => [x]
-  | y :: r => if key x <? key y then x :: y :: r else y :: insert_by key x r
+  | y :: r => if key x <=? key y then x :: y :: r else y :: insert_by key x r
   end.
 
 Fixpoint isort_by {A} (key : A -> Z) (l : list A) : list A :=
@@ -205,7 +205,7 @@ Qed.
 Lemma insert_by_perm : forall {A} (key : A -> Z) x l, Permutation (x :: l) (insert_by key x l).
 Proof.
   intros A key x l. induction l as [|y r IH]; cbn [insert_by]; [reflexivity|].
-  destruct (key x <? key y); [reflexivity|].
+  destruct (key x <=? key y); [reflexivity|].
   rewrite perm_swap. now constructor.
 Qed.
 
@@ -222,7 +222,7 @@ Lemma insert_by_sorted : forall {A} (key : A -> Z) x l,
 Proof.
   intros A key x l Hs. induction Hs as [|y r Hs IH Hall]; cbn [insert_by].
   - constructor; constructor.
-  - destruct (Z.ltb_spec (key x) (key y)) as [Hlt|Hge].
+  - destruct (Z.leb_spec (key x) (key y)) as [Hlt|Hge].
     + constructor; [now constructor|]. constructor; [unfold key_le; lia|].
       rewrite Forall_forall in *. intros z Hz. specialize (Hall z Hz). unfold key_le in *. lia.
     + constructor; [assumption|]. rewrite Forall_forall in *. intros z Hz.
